@@ -16,16 +16,17 @@ clean, changed, tests = int(m.group(1)), int(m.group(2)), m.group(3).strip()
 ok = clean == 0 and changed != 0 and "passed" in tests and "failed" not in tests
 if not ok:
     print("NOT CONFIRMED:", sid, m.group(0)); sys.exit(1)
-assert subprocess.run(["git", "-C", "/repo", "diff", "--quiet"]).returncode == 0, "/repo dirty"
-subprocess.check_call(["git", "-C", "/repo", "apply", os.path.join(src, "patch.diff")])
+wt = "/tmp/wt/keep-%d" % os.getpid()
+subprocess.check_call(["git", "-C", "/repo", "worktree", "add", "--detach", wt, "HEAD"], stdout=subprocess.DEVNULL, stderr=subprocess.DEVNULL)
 caught = {}
 try:
+    subprocess.check_call(["git", "-C", wt, "apply", os.path.join(src, "patch.diff")])
     for p in props:
-        r = subprocess.run(["./check", p, "--no-evidence"], cwd="/verif", capture_output=True, text=True)
+        r = subprocess.run(["./check", p, "--no-evidence", "--repo", wt], cwd="/verif", capture_output=True, text=True)
         cl = sorted(set(re.findall(r"clause=(\S+)", r.stdout)))
         caught[p] = {"exit": r.returncode, "clauses": cl}
 finally:
-    subprocess.check_call(["git", "-C", "/repo", "checkout", "--", "."])
+    subprocess.call(["git", "-C", "/repo", "worktree", "remove", "--force", wt])
 dst = os.path.join("/verif/seeded", sid)
 os.makedirs(dst, exist_ok=True)
 shutil.copy(os.path.join(src, "patch.diff"), dst)
